@@ -9,7 +9,8 @@ Stage C  correspondence, for every class with a descriptor: the real unpack()/pa
          descriptor's attribute table (floats bit-exact).
 Stage D  oracle = the property itself on the real code, for ALL classes (descriptor or not): tools/c01_oracle.py
          (every pack()/unpack() call form, MessageHeader.pack(payload=) for every class; integer fields enumerated as
-         bit sets at the offsets int_fields() reads from the descriptors; re-used objects: unpack into an object that
+         bit sets at the offsets int_fields() reads from the descriptors; bytes / text members with structured-looking
+         contents x defined and unrecognized raw values of every enumeration field (O.structured); re-used objects: unpack into an object that
          has parsed / refused other encodings before must equal a new object, chains and shape-class pairs).
          + the float-codec hypotheses of the theorems tested directly on the implementation (all 65 536 raw values
          of every 16-bit scaled field, Timestamp on a grid, three cycles).
@@ -241,7 +242,7 @@ def correspond(ctx, layouts):
     for name in names:
         subj = subs[name]
         srng = O.random.Random(zlib.crc32(name.encode()) + 77 * ctx.seed)
-        encs = O.encodings(subj, srng, ctx.thorough, budget, int_fields(layouts[name]))
+        encs = O.encodings(subj, srng, ctx.thorough, budget, int_fields(layouts[name]), content_hints(layouts[name]))
         if len(encs) > budget * 2:
             head = encs[:budget]
             tail = encs[budget:]
@@ -456,8 +457,54 @@ def int_fields(items, base=0):
     return res
 
 
+def content_hints(items, base=0):
+    """for the oracle's structured-content generator (O.structured): the enumeration-typed fields at static offsets
+    with their defined raw values, and the fixed-length bytes / text members at static offsets."""
+    enums, segs = [], []
+    off = base
+    for it in items:
+        k = it['k']
+        if k == 'field':
+            c = it['codec']
+            if c[0] in ('lenient', 'strict'):
+                enums.append((off, it['w'], c[0], tuple(int(m) for m in c[2])))
+            elif c[0] == 'raw':
+                segs.append((off, it['w']))
+            off += it['w']
+        elif k == 'count':
+            off += it['w']
+        elif k == 'pad':
+            off += it['n']
+        elif k == 'struct':
+            s = X.static_size(it['items'])
+            h = content_hints(it['items'], off)
+            enums += h['enums']
+            segs += h['segments']
+            if s is None:
+                break
+            off += s
+        elif k == 'array' and it['cnt'][0] == 'fixed':
+            s = X.static_size(it['items'])
+            h = content_hints(it['items'], off)
+            enums += h['enums']
+            segs += h['segments']
+            if s is None:
+                break
+            off += s * it['cnt'][1]
+        elif k == 'bytes' and it['cnt'][0] == 'fixed':
+            segs.append((off, it['cnt'][1]))
+            off += it['cnt'][1]
+        else:
+            break
+    return {'enums': enums, 'segments': segs}
+
+
 def field_table(layouts):
     return {n: int_fields(items) for n, items in (layouts or {}).items()}
+
+
+def hint_table(layouts):
+    return {n: content_hints(items) for n, items in (layouts or {}).items()}
 
 
 def sweep_work(args):
@@ -624,7 +671,9 @@ def oracle(ctx, pool, budget):
     reuse = {}
     ft = field_table(getattr(ctx, '_c01_layouts', None))
     ctx.cov['oracle_integer_fields_enumerated'] = sum(len(v) for v in ft.values())
-    for r in pool.imap_unordered(O.run_subject, [(n, ctx.seed, ctx.thorough, budget, ft.get(n)) for n in names]):
+    ht = hint_table(getattr(ctx, '_c01_layouts', None))
+    ctx.cov['oracle_content_members_with_structured_values'] = sum(len(v['segments']) for v in ht.values())
+    for r in pool.imap_unordered(O.run_subject, [(n, ctx.seed, ctx.thorough, budget, ft.get(n), ht.get(n)) for n in names]):
         if r.get('infra'):
             raise fv.InfraError(r['infra'])
         for k in tot:
@@ -684,7 +733,14 @@ def check(ctx):
         'from {0,1,3,8} with random prefix and suffix. Integer fields at static offsets (from the descriptor) as bit sets: every base '
         '(every variable-part shape / sub-payload type) x every plain unsigned field x all combinations of its two low bits; first bases x '
         'every integer field x {all 4-low-bit combinations, single bits, top bit + low bits, complements} (all 256 values / every bit of '
-        'wider fields in thorough). Call forms, each required to give the bytes of pack() with all guard bytes untouched and the promised '
+        'wider fields in thorough). Bytes / text members (variable-length ones of every class that has them, each member of multi-member '
+        'classes; fixed-length ones at static offsets from the descriptor; sub-payload data of the configuration containers) filled at '
+        'their start and at their end, in the shortest member that holds it and in the longest, with structured-looking contents: the '
+        'sync bytes ".1", the logged form "/2", near misses, complete framed messages with a valid CRC in both forms, NULs first / inside / '
+        'last, non-UTF-8 and truncated multi-byte text, valid multi-byte text, preambles of other protocols, the class\'s own first two '
+        'bytes / fixed part / whole encoding; each of these x every enumeration-typed field of the fixed part x {defined values, '
+        'unrecognized raw values below the smallest, at both edges of the gaps, directly above the largest, at the middle and top of the '
+        'range}, one field at a time and all fields at once. Call forms, each required to give the bytes of pack() with all guard bytes untouched and the promised '
         'return value: library-allocated pack() / (return_buffer=) / (None, 0|5) / (buffer=None); caller-supplied bytearray and memoryview, '
         'positional and keyword, return_buffer False / True / default at offsets {0,1,3,8,24,57,size+2} with guard bytes before and after; '
         'unpack from bytes / bytearray / memoryview / keywords / message_version= (same value and count, input unmodified); '
